@@ -112,13 +112,13 @@ type Chooser interface {
 // AllLost loses every unsynced unit.
 type AllLost struct{}
 
-func (AllLost) Keep(string) bool          { return false }
-func (AllLost) Prefix(string, int) int    { return 0 }
+func (AllLost) Keep(string) bool       { return false }
+func (AllLost) Prefix(string, int) int { return 0 }
 
 // NoneLost keeps every unsynced unit.
 type NoneLost struct{}
 
-func (NoneLost) Keep(string) bool         { return true }
+func (NoneLost) Keep(string) bool           { return true }
 func (NoneLost) Prefix(_ string, n int) int { return n }
 
 // DeviceImage materialises the content of device dev after a crash at
